@@ -413,7 +413,8 @@ def decl_syntax_correspondence(ctx, model, toks_src, toks_out, src):
         if req is not None:
             rep = model.ask("schema " + req)
             ctx.hist("correspondence", "declaration syntax: whole schema token stream")
-            want = "D " + D.collapse_schema(toks_out) + " | roundtrip-ok"
+            want = "D " + D.collapse_schema(toks_out) + " | roundtrip-ok | order-ok"      # order-ok: exppp emitted the declarations of
+            # every scope as types, entities, rules, functions, procedures, each kind alphabetically (Lean `orderedSpine`)
             if rep != want:
                 a_, b_ = want.split(" "), rep.split(" ")
                 j = next((i for i in range(min(len(a_), len(b_))) if a_[i] != b_[i]), min(len(a_), len(b_)))
